@@ -22,7 +22,7 @@ RULE = ("random and systematic notes, containers, bars, tracks and compositions 
         "non-trivial = every export; distinct by the exported text")
 
 METERS = [(4, 4), (3, 4), (6, 8), (12, 8), (2, 2), (5, 4), (0, 0)]
-TITLE_CHARS = "ABCxyz &<>' "
+TITLE_CHARS = "ABCxyz &<>' éüřß漢♯"
 
 
 def shards(tier, seed):
